@@ -147,14 +147,12 @@ def enclosing_function(node):
 
 
 def walk_local(func):
-    """Walk a function body without descending into nested defs/lambdas/classes."""
-    stack = list(ast.iter_child_nodes(func))
-    while stack:
-        node = stack.pop()
-        yield node
-        if isinstance(node, (ast.FunctionDef, ast.AsyncFunctionDef, ast.Lambda, ast.ClassDef)):
+    """Walk a function body in document order without descending into nested defs/lambdas/classes."""
+    for child in ast.iter_child_nodes(func):
+        yield child
+        if isinstance(child, (ast.FunctionDef, ast.AsyncFunctionDef, ast.Lambda, ast.ClassDef)):
             continue
-        stack.extend(ast.iter_child_nodes(node))
+        yield from walk_local(child)
 
 
 def walk_stmts(stmts):
